@@ -128,6 +128,7 @@ func (e *Engine) verifyUnit(u *FuncUnit) *UnitResult {
 				st.assume(eq(n, v.T))
 				v.T = n
 			}
+			c.refFact(st, v) // references existing at entry are below the allocation pointer
 			if isSliceSort(v.S) {
 				// a ghost that denotes a Go slice value is well formed
 				st.assume("(>= " + sLen(v) + " 0)")
